@@ -111,13 +111,15 @@ type Violation struct {
 }
 
 type World struct {
-	gateDelay   int           // set by the gate hook right before it parks: scheduler steps the preemption lasts
-	gateWaiting bool          // some goroutine is still preempted at a gate (set by enabledList)
-	wake        chan struct{} // a call has just parked (ends the scheduler's sleep)
-	gates       *gateState
-	mu          sync.Mutex
-	cfg         *Config
-	rng         *rand.Rand
+	gateDelay    int           // set by the gate hook right before it parks: scheduler steps the preemption lasts
+	gateWaiting  bool          // some goroutine is still preempted at a gate (set by enabledList)
+	gateTimeStep bool          // only timers can make progress while a goroutine is preempted, and the budget allows it
+	gateTimeUsed time.Duration // simulated time that has passed so far while goroutines were preempted
+	wake         chan struct{} // a call has just parked (ends the scheduler's sleep)
+	gates        *gateState
+	mu           sync.Mutex
+	cfg          *Config
+	rng          *rand.Rand
 
 	parked   map[string]*parked
 	frozen   []*parked // calls of dead incarnations, never released (until poison)
@@ -410,9 +412,17 @@ func (w *World) enabledList() []enabledItem {
 		out = append(out, it)
 	}
 	w.gateWaiting = waiting != nil
+	w.gateTimeStep = false
 	if len(out) == 0 && waiting != nil {
-		// nothing else can run: the preempted goroutine is scheduled again now (time does not
-		// pass while a goroutine is merely preempted)
+		if w.gateTimeUsed < time.Duration(w.cfg.GateTimeMs)*time.Millisecond {
+			// nothing else can run but timers: within the run's budget a preemption may last
+			// long enough for them to fire (a goroutine that stays preempted while a whole run
+			// fails, is torn down and finalized)
+			w.gateTimeStep = true
+			return out
+		}
+		// nothing else can run: the preempted goroutine is scheduled again now (beyond the
+		// budget time does not pass while a goroutine is merely preempted)
 		w0 := *waiting
 		out = append(out, w0)
 	}
@@ -469,6 +479,9 @@ func (w *World) Run() {
 		}
 		w.choices = append(w.choices, ch)
 		if ch.K == "T" {
+			if w.gateWaiting {
+				w.gateTimeUsed += quanta[ch.A%len(quanta)]
+			}
 			w.sleep(quanta[ch.A%len(quanta)])
 			continue
 		}
@@ -480,7 +493,7 @@ func (w *World) Run() {
 			w.diverged = "internal: chosen key vanished: " + ch.K
 			return
 		}
-		if ch.F == "stall" {
+		if ch.F == "stall" || ch.F == "db.stall" {
 			// declared fault: the call is never served; only its context can end it
 			w.mu.Lock()
 			p.stalled = true
@@ -488,7 +501,7 @@ func (w *World) Run() {
 			// context ends earlier when that context is cancelled (force stop, teardown)
 			p.stalledUntil = time.Now().Add(time.Duration(30+ch.A%600) * time.Second)
 			w.parked[ch.K] = p
-			w.faultFired["stall"]++
+			w.faultFired[ch.F]++
 			w.mu.Unlock()
 			continue
 		}
@@ -550,6 +563,9 @@ func (w *World) choose(items []enabledItem) Choice {
 	}
 	arg := w.rng.IntN(1 << 16)
 	// advance time?
+	if len(items) == 0 && w.gateTimeStep {
+		return Choice{K: "T", A: arg % 3}
+	}
 	if len(items) == 0 {
 		// nothing to serve: time must pass. Escalate the quantum while idle.
 		if !w.idle {
@@ -668,7 +684,7 @@ func (w *World) isDead() bool {
 func (w *World) stallCount() int {
 	w.mu.Lock()
 	defer w.mu.Unlock()
-	return w.faultFired["stall"]
+	return w.faultFired["stall"] + w.faultFired["db.stall"]
 }
 
 // worldParked counts parked seam calls of the live incarnation (client waits excluded).
